@@ -152,6 +152,17 @@ func (c *absCtx) node(key absKey, build func(id int) AV) AV {
 	return AV{"k": "node", "id": id}
 }
 
+// withWrap: an integer outside the int64 range carries w64, its value modulo 2^64 read as a signed
+// number - what the known finding C01-K2 (silent wrap through the default LongType) turns it into, and
+// nothing else
+func withWrap(av AV, x *big.Int) AV {
+	if !x.IsInt64() {
+		m := new(big.Int).And(x, new(big.Int).SetUint64(math.MaxUint64)) // two's complement low 64 bits (And works on the infinite sign extension)
+		av["w64"] = fmt.Sprintf("%d", int64(m.Uint64()))
+	}
+	return av
+}
+
 func (c *absCtx) abs(v reflect.Value) AV {
 	if !v.IsValid() {
 		return AV{"k": "nil"}
@@ -161,17 +172,28 @@ func (c *absCtx) abs(v reflect.Value) AV {
 	switch t {
 	case bigIntType:
 		x := v.Interface().(big.Int)
-		return AV{"k": "bigint", "v": x.String()}
+		return withWrap(AV{"k": "bigint", "v": x.String()}, &x)
 	case bigFloatType:
 		x := v.Interface().(big.Float)
 		av := AV{"k": "bigfloat", "v": x.Text('p', 0), "inf": x.IsInf()}
 		if f, acc := x.Float64(); acc == big.Exact {
 			av["b64"] = fmt.Sprintf("%016x", math.Float64bits(f))
 		}
+		// what the known finding C01-K1 turns it into, and nothing else: the shortest decimal text for its
+		// own precision, read back with a 64-bit mantissa (p64) or, through an interface{}, as a float64 (r64)
+		if !x.IsInf() {
+			text := x.Text('g', -1)
+			if y, ok := new(big.Float).SetString(text); ok {
+				av["p64"] = y.Text('p', 0)
+			}
+			if f, err := strconv.ParseFloat(text, 64); err == nil {
+				av["r64"] = fmt.Sprintf("%016x", math.Float64bits(f))
+			}
+		}
 		return av
 	case bigRatType:
 		x := v.Interface().(big.Rat)
-		return AV{"k": "bigrat", "num": x.Num().String(), "den": x.Denom().String(), "txt": hex.EncodeToString([]byte(x.String()))}
+		return withWrap(AV{"k": "bigrat", "num": x.Num().String(), "den": x.Denom().String(), "txt": hex.EncodeToString([]byte(x.String()))}, x.Num())
 	case timeType:
 		x := v.Interface().(time.Time)
 		return AV{"k": "time", "date": fmt.Sprintf("%04d%02d%02d", x.Year(), int(x.Month()), x.Day()),
@@ -205,7 +227,7 @@ func (c *absCtx) abs(v reflect.Value) AV {
 	case reflect.Int, reflect.Int8, reflect.Int16, reflect.Int32, reflect.Int64:
 		return AV{"k": "int", "v": fmt.Sprintf("%d", v.Int())}
 	case reflect.Uint, reflect.Uint8, reflect.Uint16, reflect.Uint32, reflect.Uint64, reflect.Uintptr:
-		return AV{"k": "int", "v": fmt.Sprintf("%d", v.Uint())}
+		return withWrap(AV{"k": "int", "v": fmt.Sprintf("%d", v.Uint())}, new(big.Int).SetUint64(v.Uint()))
 	case reflect.Float32:
 		return realAV(v.Float(), 32)
 	case reflect.Float64:
